@@ -1,7 +1,7 @@
 import DdsModel.Drv.Util
 import DdsModel.Mip
-namespace Dds.Drv
-open Dds Dds.Mip
+namespace Dds.Drv.C16
+open Dds Dds.Mip Dds.Drv
 
 def parseFilter16 : String → Option Filter
   | "nearest" => some .nearest
@@ -134,4 +134,8 @@ def runC16 (line : String) : String :=
     | _, _, _, _, _, _ => "bad-case"
   | _ => "bad-case"
 
+end Dds.Drv.C16
+
+namespace Dds.Drv
+def runC16 : String → String := C16.runC16
 end Dds.Drv
